@@ -56,6 +56,10 @@ pub fn line_loop(mut step: impl FnMut(&str) -> String) {
         }
         let r = step(&line);
         writeln!(out, "{}", r).unwrap();
+        if r.starts_with("hang") {
+            // a call did not return: its thread is still running; stop here (the remaining requests go unanswered)
+            break;
+        }
     }
     out.flush().unwrap();
 }
